@@ -65,7 +65,21 @@ def sketchOf (s : String) : Sketch :=
                          abunds := if ab == "~" then none else some (natList ab),
                          md5 := unhexStr (md5.drop 1).toString }
     if kind == "t" then .tree m else .vec m
+  | [kind, num, ksize, seed, mh, mol, mins, ab, md5, _life] =>
+    -- a lived sketch: the fields are the observation of the real sketch after `_life` (run by the harness)
+    let m : MinHash := { num := num.toNat!, ksize := ksize.toNat!, seed := seed.toNat!, maxHash := mh.toNat!,
+                         mol := molOf mol, mins := natList mins,
+                         abunds := if ab == "~" then none else some (natList ab),
+                         md5 := unhexStr (md5.drop 1).toString }
+    if kind == "t" then .tree m else .vec m
   | _ => .hll [] 0 0 0
+
+/-- which sketches of a sigspec are lived ones (per signature, per sketch) -/
+def livedOf (s : String) : List (List Bool) :=
+  if s == "-" then [] else (s.splitOn "+").map fun g =>
+    match g.splitOn ";" with
+    | [_, _, _, _, _, _, _, sk] => if sk == "-" then [] else (sk.splitOn "|").map fun k => (k.splitOn ":").length == 10
+    | _ => []
 
 /-- `letter = none`: hide the container type (`m`) -/
 def showSketch (hide : Bool) : Sketch → String
@@ -179,12 +193,27 @@ def viewOf (l : List Signature) : List (List (Option SigFormat.SketchView)) :=
 
 /-- the states the property quantifies over: a sketch is a num sketch or a scaled sketch, hashes strictly
     increasing with aligned abundances (C01), one of the four hash functions -/
-def inScope (l : List Signature) : Bool :=
-  l.all fun s => s.sketches.all fun
-    | .vec m | .tree m =>
-      (m.mins.zip (m.mins.drop 1)).all (fun p => p.1 < p.2) &&
-      (match m.abunds with | none => true | some a => a.length == m.mins.length)
-    | .hll .. => true
+def inScopeSk : Sketch → Bool
+  | .vec m | .tree m =>
+    (m.mins.zip (m.mins.drop 1)).all (fun p => p.1 < p.2) &&
+    (match m.abunds with | none => true | some a => a.length == m.mins.length)
+  | .hll .. => true
+
+/-- … for the sketches that a request line assembles field by field.  A *lived* sketch (made by the real
+    operations) is in scope whatever it looks like: the property is about every sketch the library can hold. -/
+def inScope (l : List Signature) (lived : List (List Bool)) : Bool :=
+  (l.zip (lived ++ List.replicate l.length [])).all fun p =>
+    (p.1.sketches.zip (p.2 ++ List.replicate p.1.sketches.length false)).all fun q => q.2 || inScopeSk q.1
+
+/-- what the property expects to come back for the saved state: the state itself, where a lived sketch's md5
+    is *the md5 of its hashes* (`SigFormat.md5Of`), whatever its cache said when it was saved -/
+def expected (l : List Signature) (lived : List (List Bool)) : List Signature :=
+  (l.zip (lived ++ List.replicate l.length [])).map fun p =>
+    { p.1 with sketches := (p.1.sketches.zip (p.2 ++ List.replicate p.1.sketches.length false)).map fun q =>
+        match q.1, q.2 with
+        | .vec m, true => .vec { m with md5 := SigFormat.md5Of m.ksize m.mins }
+        | .tree m, true => .tree { m with md5 := SigFormat.md5Of m.ksize m.mins }
+        | sk, _ => sk }
 
 def molArg (s : String) : Option Mol :=
   if s == "any" then none else
@@ -207,12 +236,16 @@ def stepC06 (s : Unit) (ws : List String) : Unit × Resp :=
     match parseJson (unhexBytes text) with
     | .ok j =>
       (s, { model := if jsonEq (sortKeys j) (sortKeys (toJson sigs)) then "same" else "differs",
-            spec := if SigFormat.describes j sigs then "same" else "not-described" })
+            spec := if !SigFormat.describes j sigs then "not-described" else
+                    match SigFormat.documentDefect j (livedOf spec) with
+                    | some what => what
+                    | none => "same" })
     | .error _ => (s, { model := "unparsable", spec := "same" })
   | ["roundtrip", spec] =>
     let sigs := listOf spec
+    let lived := livedOf spec
     (s, { model := showRes true (reload sigs),
-          spec := if sigs.isEmpty || !inScope sigs then "-" else showList true sigs })
+          spec := if sigs.isEmpty || !inScope sigs lived then "-" else showList true (expected sigs lived) })
   | ["rtypes", spec] =>
     let r := match reload (listOf spec) with
       | .ok l =>
@@ -228,7 +261,8 @@ def stepC06 (s : Unit) (ws : List String) : Unit × Resp :=
     let back := if lv == 0 then reload sigs else fromJson (toJson sigs)
     let pre := if lv == 0 then "plain eq " else "gz eq "
     (s, { model := pre ++ showRes true back,
-          spec := if (sigs.isEmpty && lv == 0) || !inScope sigs then "-" else pre ++ showList true sigs })
+          spec := if (sigs.isEmpty && lv == 0) || !inScope sigs (livedOf spec) then "-"
+                  else pre ++ showList true (expected sigs (livedOf spec)) })
   | ["load", text] | ["file", _, text] =>
     let r := match parseText text with
       | .ok j => fromJson j
@@ -251,8 +285,8 @@ def stepC06 (s : Unit) (ws : List String) : Unit × Resp :=
     let mo := molArg mol
     let r := if sigs.isEmpty then .error .niffler else loadSignatures ko mo (toJson sigs)
     (s, { model := showRes true r,
-          spec := if sigs.isEmpty || SigFormat.hasHll sigs || !inScope sigs then "-"
-                  else showList true (SigFormat.filterSpec ko mo sigs) })
+          spec := if sigs.isEmpty || SigFormat.hasHll sigs || !inScope sigs (livedOf spec) then "-"
+                  else showList true (SigFormat.filterSpec ko mo (expected sigs (livedOf spec))) })
   | ["loadvec", text] =>
     let r := match parseText text with
       | .ok j => fromJsonVec j
